@@ -10,6 +10,7 @@ import (
 	"math"
 	"os"
 	"strings"
+	"unsafe"
 
 	"golang.org/x/tools/go/ssa"
 )
@@ -1043,4 +1044,20 @@ func (e *Engine) lookupMethodSafe(T types.Type, name string) *ssa.Function {
 		}
 	}
 	return nil
+}
+
+func init() {
+	// slices.overlaps uses unsafe pointer arithmetic: decide it on the engine's backing arrays.
+	intrinsics["slices.overlaps"] = func(x *Exec, fr *frame, args []Value) Value {
+		a, b := args[0].(Slice).A, args[1].(Slice).A
+		if len(a) == 0 || len(b) == 0 {
+			return tFalse
+		}
+		a0 := uintptr(unsafe.Pointer(&a[0]))
+		b0 := uintptr(unsafe.Pointer(&b[0]))
+		sz := unsafe.Sizeof(a[0])
+		aEnd := a0 + uintptr(len(a))*sz - 1
+		bEnd := b0 + uintptr(len(b))*sz - 1
+		return mkBool(a0 <= bEnd && b0 <= aEnd)
+	}
 }
